@@ -104,12 +104,13 @@ def shaped_cases(tier):
 def cases(tier):
     if tier == "quick":
         return [mk(6), mk(5, 900, None, ["-DUSE_DEVICE_DEPENDENT_ERROR_INFORMATION=0"], "-noinfo")] + tmpl_cases(tier)
-    # msg-n9 was dropped from the registered tier: no verdict within 12000 s
-    return tmpl_cases(tier) + [mk(8, 9000, "cadical"), mk(7, 6000, "cadical"), mk(6, 3000, None, ["-DUSE_DEVICE_DEPENDENT_ERROR_INFORMATION=0"], "-noinfo")]
+    # free text of 8 and 9 bytes was dropped from the registered tier: no verdict within 9000 s / 12000 s on the unchanged
+    # tree (msg-n8 did decide a seeded change in 4026 s); 7 bytes takes 2170 s
+    return tmpl_cases(tier) + [mk(7, 6000, "cadical"), mk(6, 3000, None, ["-DUSE_DEVICE_DEPENDENT_ERROR_INFORMATION=0"], "-noinfo")]
 
 
 META = dict(
-    bounds=dict(message_len="1..6 quick / 1..8 thorough (free text); 2- and 3-unit templates quick, plus 4-unit templates thorough", alphabet="A B C : ; ? * LF", units="up to 5"),
+    bounds=dict(message_len="1..6 quick / 1..7 thorough (free text); 2- and 3-unit templates quick, plus 4-unit templates thorough", alphabet="A B C : ; ? * LF", units="up to 5"),
     outside=["messages longer than the bound (6-unit messages)", "letter case, long/short forms and numeric suffixes in headers (the "
              "matcher itself is C03's subject; here it runs for real on single-letter keywords)", "units with parameters (C05)"],
     assumptions=["message is NUL-terminated in its buffer (SCPI_Input guarantees it)"],
